@@ -139,12 +139,13 @@ Definition describe (k : cand) : bytes * N :=
 Inductive label :=
 | LGet (c : cid) (e : genv) (t : tenv)
 | LCreate (c : cid) (h b : bytes) (e : cenv) (t : tenv)      (* h = ler.HolderIdentity, b = json.Marshal(ler) *)
-| LUpdate (c : cid) (h b : bytes) (e : cenv) (t : tenv).
+| LUpdate (c : cid) (h b : bytes) (e : cenv) (t : tenv)
+| LInfo (c : cid).      (* leader.go GetLeaderInfo / GetElectionInfo / Describe on c's node: reads record and tso only *)
 
 Definition lab_cid (l : label) : cid :=
-  match l with LGet c _ _ | LCreate c _ _ _ _ | LUpdate c _ _ _ _ => c end.
+  match l with LGet c _ _ | LCreate c _ _ _ _ | LUpdate c _ _ _ _ | LInfo c => c end.
 Definition lab_write (l : label) : option bytes :=
-  match l with LGet _ _ _ => None | LCreate _ _ b _ _ | LUpdate _ _ b _ _ => Some b end.
+  match l with LGet _ _ _ | LInfo _ => None | LCreate _ _ b _ _ | LUpdate _ _ b _ _ => Some b end.
 
 (* ghost record of one write that took effect *)
 Record entry := mkEntry {
@@ -172,6 +173,7 @@ Definition run_op (s : sys) (l : label) : opout :=
   | LGet c e t => do_get (store s) (cands s c) e t
   | LCreate c h b e t => do_create (store s) (cands s c) h b e t
   | LUpdate c h b e t => do_update (store s) (cands s c) h b e t
+  | LInfo c => mkOut (store s) (cands s c) ROk false false None
   end.
 
 Definition lab_cond (s : sys) (l : label) : option bytes :=
